@@ -1,5 +1,5 @@
 (** C01 - Every task gets exactly one terminal outcome, reported once, in order. *)
-From HQ Require Import Base.Prelude Cluster.Types Cluster.Core Cluster.Reactor Cluster.Worker Cluster.Server Cluster.Sys Cluster.Monitors Cluster.ProofsJob Cluster.ProofsCore Cluster.ProofsMore.
+From HQ Require Import Base.Prelude Cluster.Types Cluster.Core Cluster.Reactor Cluster.Worker Cluster.Server Cluster.Sys Cluster.Monitors Cluster.ProofsJob Cluster.ProofsCore Cluster.ProofsMore Cluster.ProofsTerminal.
 From Coq Require Import ZArith.
 Local Open Scope N_scope.
 
@@ -22,6 +22,25 @@ Theorem C01_cancel_abort_only_from_active : forall target site ids, (target = JC
   forall t, In t ids -> jt_find (j_tasks j) (snd t) = Some JW \/ jt_find (j_tasks j) (snd t) = Some JR.
 Proof. exact mark_only_from_active. Qed.
 
+(** An outcome is final: once the job layer has recorded an outcome for a task, no client request
+    and no task-progress callback - in any order, also ones the scheduler core would never send -
+    changes it (the job id counter being ahead of all job ids, as it is after every history). *)
+Theorem C01_outcome_final : forall s o s' t v,
+  (forall j, In j (h_jobs (hq_of s)) -> j_id j < h_counter (hq_of s)) ->
+  (match o with JForget _ => False | _ => True end) ->
+  jstep s o = Ok s' -> task_state s t = Some v -> terminal v ->
+  task_state s' t = Some v \/ find_job (h_jobs (hq_of s')) (fst t) = None.
+Proof. exact jstep_outcome_final. Qed.
+
+(** Only forgetting removes outcomes, together with the whole job, and only for a closed job all of
+    whose tasks have an outcome. *)
+Theorem C01_forget_only_terminated : forall s jid s',
+  HOK (hq_of s) -> handle_forget s jid = Ok s' -> hq_of s' <> hq_of s ->
+  exists j, find_job (hq_jobs s) jid = Some j /\ j_open j = false /\ cnt (j_tasks j) JW = 0 /\ cnt (j_tasks j) JR = 0.
+Proof. exact forget_only_terminated. Qed.
+
+Print Assumptions C01_outcome_final.
+Print Assumptions C01_forget_only_terminated.
 Print Assumptions C01_finished_only_from_running.
 Print Assumptions C01_failed_only_from_active.
 Print Assumptions C01_cancel_abort_only_from_active.
